@@ -1,1 +1,85 @@
-fn main() { println!("hello"); }
+//! Harness driving the real graphrs implementation (built from /repo's working tree with the
+//! `verif_hooks` feature) on generated or replayed cases of the line protocol.
+//!
+//!   verif-harness gen <family> <profile> <seed> <count> <size> <req-file>
+//!   verif-harness run <req-file> <impl-file>        one impl observation line per request line
+//!   verif-harness candidates <req-file>             smaller variants of the (single) request
+mod rng;
+mod store;
+
+use rng::Rng;
+use std::io::{BufRead, BufWriter, Write};
+
+fn gen(family: &str, profile: &str, seed: u64, count: usize, size: usize) -> Vec<String> {
+    let mut rng = Rng::new(seed);
+    let mut out = vec![];
+    for _ in 0..count {
+        let mut r = rng.fork();
+        let line = match family {
+            "store" => {
+                let p = match profile {
+                    "weights" => store::Profile::Weights,
+                    "degrees" => store::Profile::Degrees,
+                    _ => store::Profile::General,
+                };
+                store::gen_case(&mut r, p, size).request()
+            }
+            _ => panic!("unknown family {}", family),
+        };
+        out.push(line);
+    }
+    out
+}
+
+fn run_line(line: &str) -> String {
+    let (cmd, mut t) = store::Toks::from_line(line);
+    match cmd.as_str() {
+        "store" => store::observe(&store::Case::parse(&mut t)),
+        _ => format!("i.badrequest={}", cmd),
+    }
+}
+
+fn candidates(line: &str) -> Vec<String> {
+    let (cmd, mut t) = store::Toks::from_line(line);
+    match cmd.as_str() {
+        "store" => store::candidates(&store::Case::parse(&mut t)),
+        _ => vec![],
+    }
+}
+
+fn main() {
+    // panics inside catch_unwind are reported through the observation, not on stderr
+    std::panic::set_hook(Box::new(|_| {}));
+    let args: Vec<String> = std::env::args().collect();
+    match args.get(1).map(|s| s.as_str()) {
+        Some("gen") => {
+            let lines = gen(&args[2], &args[3], args[4].parse().unwrap(), args[5].parse().unwrap(), args[6].parse().unwrap());
+            let mut w = BufWriter::new(std::fs::File::create(&args[7]).unwrap());
+            for l in lines {
+                writeln!(w, "{}", l).unwrap();
+            }
+        }
+        Some("run") => {
+            let f = std::io::BufReader::new(std::fs::File::open(&args[2]).unwrap());
+            let mut w = BufWriter::new(std::fs::File::create(&args[3]).unwrap());
+            for line in f.lines() {
+                let line = line.unwrap();
+                if line.trim().is_empty() {
+                    continue;
+                }
+                writeln!(w, "{}", run_line(&line)).unwrap();
+            }
+        }
+        Some("candidates") => {
+            let s = std::fs::read_to_string(&args[2]).unwrap();
+            let line = s.lines().next().unwrap_or("");
+            for c in candidates(line) {
+                println!("{}", c);
+            }
+        }
+        _ => {
+            eprintln!("usage: verif-harness gen|run|candidates ...");
+            std::process::exit(2);
+        }
+    }
+}
